@@ -15,6 +15,9 @@ R4  unassigned nxt[] slots never reach the output: (a) every load of nxt[e] is p
 R6  slot 0 of 1-based heap arrays: every global array allocated with a non-zeroing allocator that some function reads at
     index 0 (constant 0, a counter starting at 0, a parameter a caller passes 0 for) has a store to slot 0 in code that runs
     earlier in flex_main's call order and under option tests the reader is also under.  Unclassifiable indices are exit 2.
+R7  union member discipline: for every union whose members differ in size (today: union dfaacc_union), a load through a
+    member wider than another stored member is under the option tests common to all stores of that member (derived from
+    the IR: dfaacc_set <-> reject), or follows a store of it to the same element.
 R5  the output location does not influence the content: env.use_stdout steers only the freopen decision in
     check_options() and one letter of the -v statistics on stderr.
 """
@@ -22,7 +25,7 @@ import re
 import ir, flow
 from ir import Resolver
 from common import where, fwhere
-from genutil import (fns, srcfile, cls, const_str, cstring, lin, array_len, branch_edges, truth_edges, selftest_program,
+from genutil import (edge_dominates, fns, srcfile, cls, const_str, cstring, lin, array_len, branch_edges, truth_edges, selftest_program,
                      Collect, expect_control, reach_fns, mod_globals, is_elem_of_global)
 import c17
 
@@ -722,17 +725,30 @@ def index_class(prog, f, idx, at, res):
 FLAG_STRUCTS = ('ctrl_bundle_t', 'env_bundle_t')
 
 def flag_conditions(prog, f, ins, res):
-    """(flags, other): flags = {(location class, polarity)} of option tests that control ins; other = number of
-    controlling conditions that are not plain option tests (loop bounds, data tests)"""
+    """(flags, other): flags = {(location class, polarity)} of mode tests that control ins - truth tests of an option
+    field or of a global scalar/pointer (reject, tablesext, nultrans ...); other = number of controlling conditions that
+    are not such tests (loop bounds, data comparisons)"""
     cfg = prog.cfg(f, cut=False); flags = set(); other = 0
     for br, t in cfg.control_deps_closure(ins.blk):
         te = truth_edges(f, br)
-        d = f.def_of(flow.int_origin(f, te[0])) if te is not None else None
+        d = f.def_of(flow.int_origin(f, flow.strip_casts(f, te[0]))) if te is not None else None
         c = cls(prog, res.loc(d.ops[0])) if d is not None and d.op == 'load' else None
-        if c is not None and ((c[0] == 'field' and c[1] in FLAG_STRUCTS) or (c[0] == 'global' and c[1] in ('tablesext', 'gentables', 'reject'))):
+        if c is not None and te[1] != te[2] and ((c[0] == 'field' and c[1] in FLAG_STRUCTS) or c[0] == 'global'):
             flags.add((c, t is f.bmap[te[1]]))
         else: other += 1
     return flags, other
+
+def flags_with_callers(prog, f, ins):
+    """mode tests controlling ins inside f, plus those common to every direct call site of f"""
+    own, other = flag_conditions(prog, f, ins, Resolver(f))
+    cf = None
+    for c in prog.callers(f.name):
+        fl, _o = flag_conditions(prog, c.fn, c, Resolver(c.fn))
+        cf = fl if cf is None else (cf & fl)
+    return own | (cf or set()), other
+
+def flags_str(fl):
+    return ' && '.join('%s%s' % ('' if pol else '!', c_[-1]) for c_, pol in sorted(fl, key=str)) or 'no option test'
 
 def top_calls(prog, fname):
     """calls in flex_main that (transitively) lead to function fname"""
@@ -740,12 +756,79 @@ def top_calls(prog, fname):
     if fm is None: return []
     return [x for x in fm.ins if x.op == 'call' and isinstance(x.callee, str) and fname in reach_fns(prog, [x.callee])]
 
+# ---- the jam-state slot (index jamstate = lastdfa + 1)
+
+def _resolved_lin(f, v, res, depth=0):
+    """lin(v) with locals that are assigned exactly once replaced by the value assigned (total_states = lastdfa + numtemps)"""
+    li = lin(f, v, res)
+    if li is None or depth > 2: return li
+    out = {}
+    for a, c in li.items():
+        sub = None
+        if a != 1 and a[0] == 'load' and a[1][0] == 'local' and not a[1][1].endswith('.addr'):
+            st = [x for x in f.ins if x.op == 'store' and flow._freeze(res.loc(x.ops[1])) == a[1]]
+            if len(st) == 1: sub = _resolved_lin(f, st[0].ops[0], res, depth + 1)
+        for k_, v_ in (sub.items() if sub is not None else [(a, 1)]):
+            out[k_] = out.get(k_, 0) + c * v_
+    return {k_: v_ for k_, v_ in out.items() if v_}
+
+LASTDFA = ('load', ('global', 'lastdfa')); JAMSTATE = ('load', ('global', 'jamstate'))
+
+def jamstate_is_lastdfa_plus_1(prog):
+    """every assignment of the global jamstate is lastdfa + 1 (so the two spellings name the same slot)"""
+    n = 0
+    for f in fns(prog):
+        res = Resolver(f)
+        for x in f.ins:
+            if x.op == 'store' and res.loc(x.ops[1]) == ('global', 'jamstate'):
+                n += 1
+                if lin(f, x.ops[0], res) != {LASTDFA: 1, 1: 1}: return False
+    return n > 0
+
+def jam_class(prog, f, idx, at, res):
+    """how the index idx used at `at` designates (or ranges over) slot jamstate = lastdfa + 1, else None:
+    the expressions jamstate / lastdfa + 1; a counter after a loop `for (..; i <= lastdfa; ++i)`; a counter inside a
+    loop whose upper bound is lastdfa plus something (for i <= lastdfa + numtemps)"""
+    li = _resolved_lin(f, idx, res)
+    if li is None: return None
+    if li == {JAMSTATE: 1}: return 'index jamstate'
+    if li == {LASTDFA: 1, 1: 1}: return 'index lastdfa + 1'
+    k0 = li.get(1, 0); atoms = {a: c for a, c in li.items() if a != 1}
+    if len(atoms) != 1 or list(atoms.values()) != [1]: return None
+    ctr = next(iter(atoms))
+    if ctr[0] != 'load' or ctr[1][0] != 'local': return None
+    cfg = prog.cfg(f)
+    stores = [x for x in f.ins if x.op == 'store' and flow._freeze(res.loc(x.ops[1])) == ctr[1]]
+    for b in f.blocks:
+        br = b.ins[-1]
+        be = branch_edges(f, br) if br.op == 'br' else None
+        if be is None or be[0].pred not in ('sle', 'slt'): continue
+        ic, tl, fl = be
+        if lin(f, ic.ops[0], res) != {ctr: 1}: continue
+        U = _resolved_lin(f, ic.ops[1], res)
+        if U is None or U.get(LASTDFA) != 1: continue
+        top = dict(U); top[1] = top.get(1, 0) + (0 if ic.pred == 'sle' else -1) + k0       # largest index read inside the loop
+        if edge_dominates(cfg, f, br, tl, at):
+            rest = {k_: v_ for k_, v_ in top.items() if k_ != LASTDFA}
+            if all(v_ > 0 for k_, v_ in rest.items() if k_ != 1) and (rest.get(1, 0) >= 1 or (len(rest) > (1 if 1 in rest else 0) and rest.get(1, 0) >= 0)):
+                return 'loop over %s <= %s' % (ctr[1][1], '+'.join(sorted((k_[1][1] if k_ != 1 else str(v_)) for k_, v_ in top.items() if v_)))
+        elif edge_dominates(cfg, f, br, fl, at):
+            # after the loop, before the counter is assigned again
+            mid = cfg.reach_from_block(f.bmap[fl], avoid=[at])
+            if any(x in mid and at in cfg.reach(x) for x in stores): continue
+            after = dict(top); after[1] = after.get(1, 0) + 1
+            if {k_: v_ for k_, v_ in after.items() if v_} == {LASTDFA: 1, 1: 1}:
+                return 'counter %s after the loop to lastdfa' % ctr[1][1]
+    return None
+
 def r6(prog, rep, covered=R6_COVERED_ELSEWHERE, anchors=True):
     from common import AnalysisBroken
     arrays = heap_arrays(prog)
     if anchors and len(arrays) < 30: rep.broken('C18.R6: only %d heap-allocated global arrays found' % len(arrays))
-    readers = {}     # (g, fn) -> [(load, how)]
-    events = {}      # g -> [(fn, instruction, how)]
+    jam_ok = jamstate_is_lastdfa_plus_1(prog)
+    if anchors and not jam_ok: rep.broken('C18.R6: the global jamstate is no longer assigned lastdfa + 1 everywhere; the jam-slot rule cannot name the slot')
+    readers = {}     # (slot, g, fn) -> [(load, how)]
+    events = {}      # (slot, g) -> [(fn, instruction, how)]
     unknown = []
     nacc = 0
     for f in fns(prog):
@@ -758,57 +841,150 @@ def r6(prog, rep, covered=R6_COVERED_ELSEWHERE, anchors=True):
             c = index_class(prog, f, ea[1], x, res)
             if c[0] == 'unknown':
                 unknown.append('%s[..] at %s: %s' % (ea[0], where(x), c[1])); continue
-            if c[0] != 'zero': continue
-            if x.op == 'load': readers.setdefault((ea[0], f), []).append((x, c[1]))
-            elif c[2]:
-                for site in c[2]: events.setdefault(ea[0], []).append((site.fn, site, '%s[%s] in %s() with %s' % (ea[0], f.params and 'param' or '0', f.name, c[1])))
-            else: events.setdefault(ea[0], []).append((f, x, '%s[0] stored in %s()@%s (%s)' % (ea[0], f.name, x.line, c[1])))
+            if c[0] == 'zero':
+                if x.op == 'load': readers.setdefault(('0', ea[0], f), []).append((x, c[1]))
+                elif c[2]:
+                    for site in c[2]: events.setdefault(('0', ea[0]), []).append((site.fn, site, '%s[param] in %s() with %s' % (ea[0], f.name, c[1])))
+                else: events.setdefault(('0', ea[0]), []).append((f, x, '%s[0] stored in %s()@%s (%s)' % (ea[0], f.name, x.line, c[1])))
+            if jam_ok:
+                j = jam_class(prog, f, ea[1], x, res)
+                if j is not None:
+                    if x.op == 'load': readers.setdefault(('jamstate', ea[0], f), []).append((x, j))
+                    elif j.startswith('index'): events.setdefault(('jamstate', ea[0]), []).append((f, x, '%s[jamstate] stored in %s()@%s (%s)' % (ea[0], f.name, x.line, j)))
     if unknown:
         raise AnalysisBroken('C18.R6: %d accesses to heap arrays have an index that cannot be classified as 0 / never 0 / data: %s' % (len(unknown), '; '.join(unknown[:4])))
     n = 0
     fm = prog.fn('flex_main'); fcfg = prog.cfg(fm) if fm is not None else None
-    for (g, f), lds in sorted(readers.items(), key=lambda kv: (kv[0][0], kv[0][1].name)):
+    for (slot, g, f), lds in sorted(readers.items(), key=lambda kv: (kv[0][0], kv[0][1], kv[0][2].name)):
         n += 1
-        kk = key('C18.R6', f, '%s[0]' % g)
+        kk = key('C18.R6', f, '%s[%s]' % (g, slot))
         x, how = lds[0]
         if g in covered:
-            rep.ok('C18.R6', '%s reads %s[0]@%s (%s): %s' % (f.name, g, x.line, how, covered[g])); continue
-        evs = events.get(g, [])
+            rep.ok('C18.R6', '%s reads %s[%s]@%s (%s): %s' % (f.name, g, slot, x.line, how, covered[g])); continue
+        evs = events.get((slot, g), [])
         if not evs:
-            rep.fail('C18.R6', kk, where(x), '%s() reads %s[0] (%s) but nothing in flex ever stores slot 0 of %s, which is allocated uninitialised (%s): '
-                     'the generated tables would contain whatever the heap held' % (f.name, g, how, g, ', '.join(sorted({s.fn.name for s in arrays[g]}))),
-                     replay_input='flex -CF x.l twice under different MALLOC_PERTURB_ values; compare yy_transition')
+            rep.fail('C18.R6', kk, where(x), '%s() reads %s[%s] (%s) but nothing in flex ever stores that slot of %s, which is allocated uninitialised (%s): '
+                     'the generated tables would contain whatever the heap held' % (f.name, g, slot, how, g, ', '.join(sorted({s.fn.name for s in arrays[g]}))),
+                     replay_input='run flex twice under different MALLOC_PERTURB_ values (-CF for slot 0, default tables for the jam slot) and compare the tables')
             continue
-        res = Resolver(f)
-        rflags, _ = flag_conditions(prog, f, x, res)
-        callers = prog.callers(f.name)
-        cf = None
-        for c in callers:
-            fl, _o = flag_conditions(prog, c.fn, c, Resolver(c.fn))
-            cf = fl if cf is None else (cf & fl)
-        rflags |= (cf or set())
+        rflags, _ = flags_with_callers(prog, f, x)
         verdicts = []
         for ef, ei, what in evs:
-            eflags, other = flag_conditions(prog, ef, ei, Resolver(ef))
+            if ef is f:
+                # written and read in the same function: the store must dominate the read
+                verdicts.append(('ok', what) if prog.cfg(f).ins_dominates(ei, x) else ('order', what + ', which does not dominate the read')); continue
+            eflags, other = flags_with_callers(prog, ef, ei)
             if other: verdicts.append(('cond', what)); continue
             # order: the event's function runs before the reader's
             tr = top_calls(prog, f.name); te_ = top_calls(prog, ef.name) if ef is not fm else [ei]
             if fm is None or not tr or not te_: verdicts.append(('order?', what)); continue
             before = all(any(y is not t and fcfg.ins_dominates(y, t) for y in te_) for t in tr)
+            if not before:
+                # same top-level call: inside the common callee the store's call must dominate the reader's call
+                same = [t for t in tr if t in te_]
+                g_ = prog.fn(same[0].callee) if len(same) == 1 and len(tr) == 1 else None
+                if g_ is not None and g_ is not f:
+                    c2 = prog.cfg(g_)
+                    ec = [y for y in g_.ins if (y is ei) or (y.op == 'call' and isinstance(y.callee, str) and ef.name in reach_fns(prog, [y.callee]))]
+                    rc = [y for y in g_.ins if y.op == 'call' and isinstance(y.callee, str) and f.name in reach_fns(prog, [y.callee])]
+                    before = bool(ec) and bool(rc) and all(any(c2.ins_dominates(a_, b_) and a_ is not b_ for a_ in ec) for b_ in rc)
             if not before: verdicts.append(('order', what)); continue
             if not eflags <= rflags:
-                verdicts.append(('flags', '%s, but only under %s' % (what, ', '.join('%s%s' % ('' if pol else '!', c_[-1]) for c_, pol in sorted(eflags - rflags, key=str))))); continue
+                verdicts.append(('flags', '%s, but only under %s' % (what, flags_str(eflags - rflags)))); continue
             verdicts.append(('ok', what))
         good = [w for v_, w in verdicts if v_ == 'ok']
         if good:
-            rep.ok('C18.R6', '%s reads %s[0]@%s (%s): %s, which runs earlier under the same options' % (f.name, g, x.line, how, good[0]))
+            rep.ok('C18.R6', '%s reads %s[%s]@%s (%s): %s, which runs earlier under the same options' % (f.name, g, slot, x.line, how, good[0]))
         elif any(v_ in ('flags', 'order') for v_, _ in verdicts):
             w = [w for v_, w in verdicts if v_ in ('flags', 'order')][0]
-            rep.fail('C18.R6', kk, where(x), '%s() reads %s[0] (%s); the only stores to slot 0 do not cover that read: %s' % (f.name, g, how, w))
+            rep.fail('C18.R6', kk, where(x), '%s() reads %s[%s] (%s); the only stores to that slot do not cover the read: %s' % (f.name, g, slot, how, w))
         else:
-            raise AnalysisBroken('C18.R6: cannot decide whether %s[0] is stored before %s() reads it (%s)' % (g, f.name, '; '.join('%s: %s' % v_ for v_ in verdicts[:3])))
-    rep.note('C18.R6: %d element accesses of %d heap arrays classified; %d (array, reader) pairs read slot 0' % (nacc, len(arrays), n))
+            raise AnalysisBroken('C18.R6: cannot decide whether %s[%s] is stored before %s() reads it (%s)' % (g, slot, f.name, '; '.join('%s: %s' % v_ for v_ in verdicts[:3])))
+    rep.note('C18.R6: %d element accesses of %d heap arrays classified; %d (slot, array, reader) triples read slot 0 or the jam slot' % (nacc, len(arrays), n))
     return n
+
+# ================================================================ R7  union member discipline
+
+def union_accesses(prog):
+    """{union name: [(member label, size, fn, ins, kind, element)]} for loads/stores made through a member of a union object
+    (address = bitcast of a %union.X*).  element = (array global, index value) when the union is an array element."""
+    out = {}
+    for f in fns(prog):
+        res = Resolver(f)
+        for x in f.ins:
+            if x.op not in ('load', 'store'): continue
+            ptr = x.ops[0] if x.op == 'load' else x.ops[1]
+            d = f.def_of(ptr)
+            if d is None or d.op != 'bitcast' or d.srcty is None or d.srcty.k != 'ptr' or d.srcty.a.k != 'named' or not d.srcty.a.a.startswith('union.'): continue
+            ty = x.ty
+            if ty is None: continue
+            label = re.sub(r'\d+$', '', d.res) if re.match(r'[A-Za-z_]', d.res) else repr(ty)
+            el = None
+            g = f.def_of(d.ops[0])
+            if g is not None and g.op == 'getelementptr' and len(g.ops) == 2:
+                b = f.def_of(flow.strip_casts(f, g.ops[0]))
+                if b is not None and b.op == 'load' and res.loc(b.ops[0])[0] == 'global': el = (res.loc(b.ops[0])[1], g.ops[1])
+            out.setdefault(d.srcty.a.a[len('union.'):], []).append((label, f.mod.sizeof(ty), f, x, x.op, el))
+    return out
+
+def r7(prog, rep, anchors=True):
+    """a load through a union member that is wider than some other member that is also stored must happen in the mode in
+    which the wide member is what gets stored (the option tests common to all its stores), or right after such a store"""
+    from common import AnalysisBroken
+    n = 0; table = []
+    ua = union_accesses(prog)
+    for U in sorted(ua):
+        acc = ua[U]
+        sizes = {}
+        for label, sz, f, x, kind, el in acc: sizes.setdefault(label, sz)
+        if len(set(sizes.values())) < 2: continue
+        stores = {}
+        for label, sz, f, x, kind, el in acc:
+            if kind == 'store': stores.setdefault(label, []).append((f, x, flags_with_callers(prog, f, x)[0]))
+        mode = {}
+        for label, sts in stores.items():
+            m = None
+            for f, x, fl in sts:
+                if not fl: continue            # a store under no option test (initialisation of one element) says nothing about modes
+                m = set(fl) if m is None else (m & fl)
+            mode[label] = m if m is not None else set()
+            if m is not None and not m: mode[label] = None          # conditional stores without a common test
+        table.append('union %s: %s' % (U, '; '.join('%s (%d bytes) stored at %s when %s' % (
+            label, sizes[label], ', '.join(sorted({'%s:%s' % (f.name, x.line) for f, x, _ in stores.get(label, [])})) or 'nowhere', flags_str(mode.get(label) or set()) if mode.get(label, set()) is not None else 'different option tests')
+            for label in sorted(sizes))))
+        for label, sz, f, x, kind, el in acc:
+            if kind != 'load': continue
+            narrower = [l2 for l2 in stores if sizes[l2] < sz]
+            if not narrower: continue            # the narrowest stored member: its bytes are defined whichever member was stored
+            n += 1
+            kk = key('C18.R7', f, '%s.%s' % (U, label))
+            res = Resolver(f); cfg = prog.cfg(f)
+            # (b) dominated by a store of an equally wide member to the same element
+            dom = None
+            if el is not None:
+                k = idx_key(f, el[1], res)
+                for l2, s2, f2, y, kind2, el2 in acc:
+                    if kind2 == 'store' and f2 is f and s2 >= sz and el2 is not None and el2[0] == el[0] and k is not None and idx_key(f, el2[1], res) == k and cfg.ins_dominates(y, x):
+                        if not any(z.op == 'store' and flow._freeze(res.loc(z.ops[1])) in key_leaves(k) and x in cfg.reach(z) for z in cfg.reach(y, avoid=[x])): dom = y; break
+            if dom is not None:
+                rep.ok('C18.R7', '%s: load of %s.%s@%s follows the store of the same element@%s' % (f.name, U, label, x.line, dom.line)); continue
+            m = mode.get(label, set())
+            if m is None:
+                raise AnalysisBroken('C18.R7: the conditional stores of union member %s.%s have no option test in common; the mode in which it is valid cannot be derived' % (U, label))
+            if not m:
+                if label not in stores:
+                    rep.fail('C18.R7', kk, where(x), '%s() loads union member %s.%s (%d bytes), which is never stored; only %s is' % (f.name, U, label, sz, ', '.join(narrower))); continue
+                rep.ok('C18.R7', '%s: load of %s.%s@%s - that member is stored under no option test, no mode to respect' % (f.name, U, label, x.line)); continue
+            lf = flags_with_callers(prog, f, x)[0]
+            if m <= lf:
+                rep.ok('C18.R7', '%s: load of %s.%s (%d bytes)@%s is under %s, the mode in which that member is stored' % (f.name, U, label, sz, x.line, flags_str(m)))
+            else:
+                rep.fail('C18.R7', kk, where(x), '%s() loads the %d-byte union member %s.%s without being under %s; in the other mode only the %d-byte member %s is stored, so the '
+                         'remaining bytes of the element are whatever the allocator left there and the result differs from run to run' % (
+                         f.name, sz, U, label, flags_str(m - lf), min(sizes[l2] for l2 in narrower), ', '.join(narrower)),
+                         replay_input='flex -Cf on rules foo / foobar / .|\\n, once plain and once with MALLOC_PERTURB_=85: the M4_MODE_HAS_BACKING_UP line disappears')
+    rep.note('C18.R7 union members and the modes derived from their stores: ' + ' | '.join(table))
+    return n, table
 
 # ================================================================ controls / driver
 
@@ -824,8 +1000,10 @@ def controls(ctx):
     expect_control(ctx, 'C18.R4', c, ['bad_reader:nxt-load', 'bad_reader_changed_index:nxt-load', 'bad_marker:chk-store', 'bad_expand:chk-alloc'], must_hold=4)
     c = Collect(); r5(p, c, readers={})
     expect_control(ctx, 'C18.R5', c, ['content_depends:effect-use_stdout'], must_hold=1)
+    c = Collect(); r7(p, c, anchors=False)
+    expect_control(ctx, 'C18.R7', c, ['bad_union_reader:acc_union'], must_hold=2)
     c = Collect(); r6(p, c, covered={}, anchors=False)
-    expect_control(ctx, 'C18.R6', c, ['dump_acc:dfaacc[0]', 'dump_wrongopt:accsiz[0]'], must_hold=2)
+    expect_control(ctx, 'C18.R6', c, ['dump_acc:dfaacc[0]', 'dump_wrongopt:accsiz[0]', 'dump_def:def[jamstate]', 'dump_after:accsiz[jamstate]'], must_hold=3)
 
 def run(ctx):
     rep = ctx.rep; prog = ctx.flex
@@ -835,7 +1013,8 @@ def run(ctx):
         rep.require(prog.fn(a) is not None, 'anchored function %s() not found in flex' % a)
     controls(ctx)
     c = {}
-    c['R1'] = r1(prog, rep); c['R2'] = r2(prog, rep); c['R3'] = r3(prog, rep); c['R4'] = r4(prog, rep); c['R5'] = r5(prog, rep) + r5b(prog, rep); c['R6'] = r6(prog, rep)
+    c['R1'] = r1(prog, rep); c['R2'] = r2(prog, rep); c['R3'] = r3(prog, rep); c['R4'] = r4(prog, rep); c['R5'] = r5(prog, rep) + r5b(prog, rep); c['R6'] = r6(prog, rep); c['R7'], r7table = r7(prog, rep)
+    rep.setcount('unions_with_members_of_different_size', len(r7table))
     rep.setcount('translation_units', len(prog.modules)); rep.setcount('functions_analysed', len(fns(prog)))
     for k_, v in c.items(): rep.setcount('instances_' + k_, v)
     rep.floor('C18.R1', 8, 'census, 3 live getenv, format census, 2 computed formats + skeleton property lines, fork, 2 wait')
@@ -843,7 +1022,8 @@ def run(ctx):
     rep.floor('C18.R3', 10, '3 bucket arrays: 7 uses in sym.c + 4 table-parameter uses in addsym/findsym')
     rep.floor('C18.R4', 24, '11 nxt[] loads in gentabs/genctbl/mkctbl, 16 chk[] stores, 2 chk allocations')
     rep.floor('C18.R5', 2, 'env.use_stdout is read in check_options() and flexend()')
-    rep.floor('C18.R6', 8, 'slot-0 readers today: base x3, dfaacc x2 (genctbl/mkctbl/mkssltbl), chk x2, nxt x2')
+    rep.floor('C18.R7', 3, 'loads of dfaacc_union.dfaacc_set in check_for_backing_up, snstods, gentabs')
+    rep.floor('C18.R6', 12, 'slot-0 readers today: base x3, dfaacc x2, chk x2, nxt x2; jam-slot readers: base x3 (genctbl, mkctbl, gentabs), def x1 (gentabs)')
     rep.undecided += ['independence of the output from the contents of fresh heap memory in general (only nxt[]/chk[] are covered)',
                       'that chk[e] != 0 implies nxt[e] was assigned for the slot values involved (value-level; the pairing rule and the reviewed markers cover the stores)',
                       'locale- and m4-version dependence of the output; byte equality of repeated runs; the stage1/stage2 bootstrap comparison',
